@@ -5,6 +5,7 @@
 import RbpfModel.Model.Hex
 import RbpfModel.Model.Insn
 import RbpfModel.Model.Builder
+import RbpfModel.Model.DriveExec
 open Rbpf Rbpf.Hex
 
 def insnStr (i : Insn) : String :=
@@ -75,6 +76,8 @@ def handle (toks : List String) : String :=
       | some f => s!"b={bytesHex (Builder.intoBytes k f)} e={bytesHex (Builder.insn k f).toArray}"
       | none => "bad-op"
     | _, _ => "bad-op"
+  | ["verify", prog] => Drive.handleVerify prog
+  | "exec" :: rest => Drive.handleExec rest
   | _ => "bad-op"
 
 partial def loop (h : IO.FS.Stream) (out : IO.FS.Stream) : IO Unit := do
